@@ -268,6 +268,30 @@ def _builder_trial(seed, trial, res):
         for a, i in free:
             if m_int.get_type(short_address=a, instance_number=i) is not None:
                 res.violation("C12/map-lookup/phantom", f"get_type({a},{i}) invented an entry", {"entries": entries})
+        # an ambiguous event the application kept, retried against a map that changes between the retries
+        res.hit("retry_after_map_change")
+        (a0, i0), t0 = next(iter(final.items()))
+        v0 = E.encode_event("device_instance", None, 5, short_address=a0, instance_number=i0)
+        pending = command.from_frame(frame.ForwardFrame(24, v0))
+        other = DeviceInstanceTypeMapper()
+        n_entries = r.randint(1, 4)
+        for k in range(n_entries):
+            other.add_type(short_address=(a0 + 1 + k) % 64, instance_number=i0, instance_type=1)
+        try:
+            first = pending.retry_decode(other)
+            other.clear()
+            for k in range(n_entries - 1):
+                other.add_type(short_address=(a0 + 1 + k) % 64, instance_number=(i0 + 1) % 32, instance_type=3)
+            other.add_type(short_address=a0, instance_number=i0, instance_type=t0)      # same size as before, now naming the sender
+            second = pending.retry_decode(other)
+            direct = command.from_frame(frame.ForwardFrame(24, v0), dev_inst_map=other)
+            if first is not None:
+                res.violation("C12/retry-not-none", f"retry_decode with a map lacking the entry returned {type(first).__name__}", {"frame": v0})
+            elif second is None or type(second) is not type(direct) or str(second) != str(direct):
+                res.violation("C12/retry-after-map-change", f"frame {v0:#08x}: after the map was cleared and refilled (same number of entries, now "
+                              f"naming the sender) retry_decode gives {second}, direct decoding with that map gives {direct}", {"frame": v0})
+        except Exception as e:
+            res.violation(f"C12/retry-raised", f"retry_decode raised {type(e).__name__}: {e}", {"frame": v0})
         m_obj.clear()
         if m_obj.mapping:
             res.violation("C12/map-clear", "clear() left entries behind", {})
